@@ -29,6 +29,7 @@ EXPLANATION = (
     "with reference=1 directly in design_matrices, R11.7 the captured environment is the one handed down to "
     "every evaluation and stored for prediction."
     " R11.8 the used-variables extractor finds every data column a call mentions (C09's R9.4): a missed name is cut from the frame and resolves in the environment instead."
+    " R11.9 only the registered writers write the registries TRANSFORMS / ENCODINGS (C07's R7.3 restricted to them)."
 )
 ASSUMPTIONS = [
     "Python: list + list concatenates in order; for-loops iterate lists front to back; inspect.currentframe()/f_back semantics",
@@ -167,6 +168,12 @@ def r11_2(prog, rep):
         sh = None
         if ok:
             d0 = a.elts[0]
+            if isinstance(d0, ast.Name):
+                # a local bound once to the merged table
+                ds_ = [s_ for s_ in walk_local(st.node) if isinstance(s_, ast.Assign) and len(s_.targets) == 1 and unparse(s_.targets[0]) == d0.id]
+                uses_ = [n for n in ast.walk(st.node) if isinstance(n, ast.Name) and n.id == d0.id]
+                if len(ds_) == 1 and len(uses_) == 2:
+                    d0 = ds_[0].value
             # the merged table of built-ins: {**A, **B}, A | B, dict(A, **B), {**A} | B
             def merged(e):
                 if isinstance(e, ast.Dict) and all(k is None for k in e.keys):
@@ -736,6 +743,11 @@ def r11_7(prog, rep):
         cs = [x for x in calls_in(f.node) if unparse(x.func) == callee and len(x.args) > idx]
         envp = expect or ("env" if "env" in f.params else None)
         ok = bool(cs) and all(unparse(x.args[idx]) == envp for x in cs)
+        if not ok and expect == "self.env" and cs and "env" in f.params:
+            # `self.env = env` stored before the call and `env` never re-bound: the parameter is the stored environment
+            st_ = [s for s in walk_local(f.node) if isinstance(s, ast.Assign) and unparse(s.targets[0]) == "self.env" and unparse(s.value) == "env"]
+            rb_ = [n for n in ast.walk(f.node) if isinstance(n, ast.Name) and n.id == "env" and isinstance(n.ctx, ast.Store)]
+            ok = len(st_) == 1 and not rb_ and all(unparse(x.args[idx]) == "env" and st_[0].lineno <= x.lineno for x in cs)
         if ok and envp == "env":
             # `env` is the parameter (or, in design_matrices, the captured object): not rebound in between
             if q != "matrices.design_matrices":
